@@ -3,22 +3,29 @@ C15 — failed or killed builds never poison later requests or the process.
 
 Same transition system as C14 (`FfcxModel/Jit/Cache.lean`); `Reach` quantifies over every fail and
 kill choice at every step of every request, followed by any later requests.
-`globals_restored` is FALSE for the code as it is (jit.py:397-416 has no try/finally around the
-handler swap): it is stated as a counterexample plus the strongest true partial statement.
+Since /repo commit 9fb79f1 (`try ... finally: root_logger.handlers = old_handlers`) `globals_restored`
+holds at full strength; the model also lets a process issue further requests after a failed one
+(`Choice.again`), which is where leaked globals would matter.
 -/
 import FfcxProofs.Lemmas.Cache
 
 namespace Ffcx.Jit
 set_option linter.unusedSimpArgs false
 
-/-- If code generation or the C compiler fails the request enters the `except` block without
-touching the cache (a); the block renames the lock to `.failed` and re-raises (b); and in the
-resulting state a newly arriving request acquires the lock and builds afresh instead of waiting (c). -/
+/-- If code generation or the C compiler fails the request raises without touching the cache: it
+is in the `except` block (code generation) or in the `finally` block that restores the handlers and
+leads to the `except` block (C compiler) (a); the `except` block renames the lock to `.failed` and
+re-raises (b); and in the resulting state a newly arriving request — or the same process asking
+again — acquires the lock and builds afresh instead of waiting (c). -/
 theorem fail_releases_lock {s : Sys} (h : Reach s) (pid : Nat) (p : Proc)
     (hp : s.procs[pid]? = some p) :
     ((p.pc = .bGen ∨ p.pc = .bSrc ∨ p.pc = .bObj ∨ p.pc = .bLink1 ∨ p.pc = .bLink2) →
       (obs s pid .fail).res = .raise ∧ (step s pid .fail).fs = s.fs ∧
-      ∃ cause q, (step s pid .fail).procs[pid]? = some q ∧ q.pc = .bFail cause) ∧
+      ∃ q, (step s pid .fail).procs[pid]? = some q ∧
+        (q.pc = .bFail .gen ∨ q.pc = .bFailRestore .compile)) ∧
+    (∀ cause : Cause, p.pc = .bFailRestore cause → ∀ c : Choice, c ≠ .kill →
+      obs s pid c = ⟨.restore, .unit⟩ ∧ (step s pid c).fs = s.fs ∧
+      (step s pid c).procs[pid]? = some { p with pc := .bFail cause, g := userG }) ∧
     (∀ cause : Cause, p.pc = .bFail cause → ∀ c : Choice, c ≠ .kill →
       obs s pid c = ⟨.release, .ok⟩ ∧
       (step s pid c).fs.lock = .absent ∧ (step s pid c).fs.failed = true ∧
@@ -28,12 +35,24 @@ theorem fail_releases_lock {s : Sys} (h : Reach s) (pid : Nat) (p : Proc)
           obs (step s pid c) j c' = ⟨.lock, .ok⟩ ∧
           (step (step s pid c) j c').procs[j]? = some { q with pc := .bGen }) := by
   have hi := inv_reach h
-  constructor
+  refine ⟨?_, ?_, ?_⟩
   · intro hpc
     have hs := step_procs_self s pid .fail p hp
     have hf := stepProc_fail s.timeout s.fs p hpc
-    obtain ⟨cause, hc⟩ := hf.1
-    exact ⟨by rw [hs.2.2]; exact hf.2.2, by rw [hs.2.1]; exact hf.2.1, cause, _, hs.1, hc⟩
+    refine ⟨by rw [hs.2.2]; exact hf.2.2, by rw [hs.2.1]; exact hf.2.1, _, hs.1, ?_⟩
+    rcases hf.1 with h1 | h1
+    · exact Or.inl h1.2
+    · exact Or.inr h1.2
+  · intro cause hpc c hc
+    have hs := step_procs_self s pid c p hp
+    have hloc := (hi.loc pid p hp).2.2
+    simp only [LocPc, hpc] at hloc
+    have hstep : stepProc s.timeout s.fs p c =
+        (s.fs, { p with pc := .bFail cause, g := userG }, ⟨.restore, .unit⟩) := by
+      obtain ⟨pc, g, saved, polls⟩ := p
+      simp only at hpc hloc; subst hpc
+      simp [stepProc, stepLive, Pc.terminal, hc, hloc.1, hloc.2.1, userG]
+    exact ⟨by rw [hs.2.2, hstep], by rw [hs.2.1, hstep], by rw [hs.1, hstep]⟩
   · intro cause hpc c hc
     have hs := step_procs_self s pid c p hp
     have hlock : s.fs.lock ≠ .absent := (hi.loc pid p hp).1 (by rw [hpc]; rfl)
@@ -54,23 +73,24 @@ theorem fail_releases_lock {s : Sys} (h : Reach s) (pid : Nat) (p : Proc)
       simp [stepProc, stepLive, Pc.terminal, hc', hl']
     exact ⟨by rw [hs'.2.2, this], by rw [hs'.1, this]⟩
 
-/-- non-vacuity: the compiler fails at the object step; the lock is renamed; request 1, which
-arrives afterwards, becomes the builder -/
+/-- non-vacuity: the compiler fails at the object step; the handlers are restored; the lock is
+renamed; request 1, which arrives afterwards, becomes the builder -/
 example :
     let s := run (init 2 3) [(0, .none), (0, .none), (0, .none), (0, .none), (0, .fail)]
-    s.procs.map (·.pc) = [.bFail .compile, .idle] ∧ s.fs.lock = .source ∧
-    (step s 0 .none).fs = { lock := .absent, failed := true } ∧
-    (step (step s 0 .none) 1 .none).procs.map (·.pc) = [.raised (.build .compile), .bGen] := by
+    s.procs.map (·.pc) = [.bFailRestore .compile, .idle] ∧ s.fs.lock = .source ∧
+    (step s 0 .none).procs.map (·.pc) = [.bFail .compile, .idle] ∧
+    (run s [(0, .none), (0, .none)]).fs = { lock := .absent, failed := true } ∧
+    (run s [(0, .none), (0, .none), (1, .none)]).procs.map (·.pc) = [.raised (.build .compile), .bGen] := by
   decide
 
 /-- Killed builders (and any other faults): from every reachable state, along every continuation
-with arbitrary later requests and arbitrary further faults, a request that is scheduled
-`timeout + 13` times has terminated; every import happens with a complete `.so`; whatever returned
+with arbitrary later requests (by new processes or by processes asking again) and arbitrary further
+faults, a request that is scheduled `timeout + 13` times without being re-issued has terminated; every import happens with a complete `.so`; whatever returned
 imported a complete `.so`; a `TimeoutError` is raised after exactly `timeout` polls; a polling
 waiter has polled fewer than `timeout` times; `ModuleNotFoundError` is never raised. -/
 theorem kill_safe {s : Sys} (h : Reach s) (sch : List (Nat × Choice)) (j : Nat) (p : Proc)
     (hp : (run s sch).procs[j]? = some p) :
-    (sched sch j ≥ s.timeout + 13 → p.pc.terminal = true) ∧
+    (noRetry sch j → sched sch j ≥ s.timeout + 13 → p.pc.terminal = true) ∧
     (p.pc.isLoad = true → (run s sch).fs.so = .complete) ∧
     (∀ (b : Bool) (so : So), p.pc = .done b so → so = .complete) ∧
     (p.pc = .raised .timeout → p.polls = s.timeout) ∧
@@ -80,7 +100,7 @@ theorem kill_safe {s : Sys} (h : Reach s) (sch : List (Nat × Choice)) (j : Nat)
   have hi := inv_reach hr
   have hloc := (hi.loc j p hp).2.2
   have hto := run_timeout s sch
-  refine ⟨fun hs => terminal_of_sched s sch j p hs hp, ?_, ?_, ?_, ?_, ?_⟩
+  refine ⟨fun hn hs => terminal_of_sched s sch j p hn hs hp, ?_, ?_, ?_, ?_, ?_⟩
   · intro hl
     obtain ⟨pc, g, saved, polls⟩ := p
     cases pc <;> simp_all [Pc.isLoad, LocPc]
@@ -141,52 +161,40 @@ def Pc.exitedCompileObjects : Pc → Bool
   | .bFind | .bLoad | .done true _ | .bFail _ | .raised (.build _) => true
   | _ => false
 
-/-- `ffibuilder.compile` raised. -/
-def Pc.compileRaised : Pc → Bool
-  | .bFail .compile | .raised (.build .compile) => true
+/-- The request has returned or raised (the process is alive and may ask again). -/
+def Pc.finished : Pc → Bool
+  | .done _ _ | .raised _ => true
   | _ => false
 
-/-
-Full statement (FALSE on the current tree, see `globals_restored_counterexample`):
-  theorem globals_restored {s} (h : Reach s) (i p) (hp : s.procs[i]? = some p)
-      (hx : p.pc.exitedCompileObjects = true) : p.g = userG
-What is missing: jit.py restores `root_logger.handlers` only on the normal path (line 416); when
-`ffibuilder.compile` raises the capture handler stays installed.
--/
-
-/-- For every exit of `_compile_objects` other than "`ffibuilder.compile` raised", the root
-logger's handlers and `sys.stdout` are what they were on entry; `sys.stdout` is restored on every
-exit; and the exit "marker already exists" is unreachable. -/
-theorem globals_restored_partial {s : Sys} (h : Reach s) (i : Nat) (p : Proc)
-    (hp : s.procs[i]? = some p) (hx : p.pc.exitedCompileObjects = true) :
-    p.g.stdout = .user ∧ (p.pc.compileRaised = false → p.g = userG) ∧
-    p.pc ≠ .bFail .marker ∧ p.pc ≠ .raised (.build .marker) := by
+/-- Process-global state is left as it was found: in every reachable state (any interleaving, any
+fail/kill choices, any re-issued requests), for EVERY exit point of `_compile_objects` — normal,
+code generation failed, C compiler failed, marker creation failed — the root logger's handlers and
+`sys.stdout` equal their entry values; every request that has returned or raised (for whatever
+reason, builder or waiter) leaves the process with its initial globals; hence every request,
+including one issued by a process whose previous request failed, starts with the user's globals. -/
+theorem globals_restored {s : Sys} (h : Reach s) (i : Nat) (p : Proc) (hp : s.procs[i]? = some p) :
+    (p.pc.exitedCompileObjects = true → p.g = userG) ∧
+    (p.pc.finished = true → p.g = userG) ∧
+    (p.pc = .idle → p.g = userG) := by
   have hloc := ((inv_reach h).loc i p hp).2.2
   obtain ⟨pc, g, saved, polls⟩ := p
-  obtain ⟨gh, gs⟩ := g
-  cases pc <;> simp_all [Pc.exitedCompileObjects, Pc.compileRaised, LocPc, userG, FailG]
-  case bFail c => cases c <;> simp_all
-  case raised e =>
-    cases e <;> simp_all [LocPc, FailG]
-    case build c => cases c <;> simp_all
+  cases pc <;> simp_all [Pc.exitedCompileObjects, Pc.finished, LocPc, FailG]
+  case raised e => cases e <;> simp_all [LocPc, FailG]
 
-/-- The schedule of the witness: a single request; `ffibuilder.compile` fails at its first step. -/
-def leakSchedule : List (Nat × Choice) :=
-  [(0, .none), (0, .none), (0, .none), (0, .fail), (0, .none)]
+/-- The former counterexample schedule (one request, `ffibuilder.compile` fails at its first
+phase), now with the `finally` step, followed by the same process asking again. -/
+def failThenRetry : List (Nat × Choice) :=
+  [(0, .none), (0, .none), (0, .none), (0, .fail), (0, .none), (0, .none), (0, .again)]
 
-/-- `globals_restored` fails: one request, the C compiler fails, the request has raised, the lock
-is released, `sys.stdout` is restored — and the root logger's handlers are still the capture
-handler. -/
-theorem globals_restored_counterexample :
-    ¬ (∀ (s : Sys), Reach s → ∀ (i : Nat) (p : Proc), s.procs[i]? = some p →
-        p.pc.exitedCompileObjects = true → p.g = userG) := by
-  intro hall
-  have := hall (run (init 1 3) leakSchedule) (reach_run (Reach.init 1 3) _) 0
-    { pc := .raised (.build .compile), g := ⟨.capture, .user⟩, saved := userG } (by decide) (by decide)
-  exact absurd this (by decide)
-
-/-- non-vacuity of the partial theorem: the normal exit and the code-generation failure -/
+/-- non-vacuity: the C compiler fails; the request raises with restored globals and a released
+lock; the same process asks again, starts with the user's globals and builds successfully; also the
+normal exit and the code-generation failure -/
 example :
+    (run (init 1 3) (failThenRetry.take 6)).procs = [{ pc := .raised (.build .compile), saved := userG }] ∧
+    (run (init 1 3) (failThenRetry.take 6)).fs = { lock := .absent, failed := true } ∧
+    (run (init 1 3) failThenRetry).procs = [{ pc := .idle, saved := userG }] ∧
+    (run (init 1 3) (failThenRetry ++ List.replicate 12 (0, .none))).procs =
+      [{ pc := .done true .complete, saved := userG }] ∧
     (run (init 1 3) (List.replicate 10 (0, .none))).procs = [{ pc := .bFind, saved := userG }] ∧
     (run (init 1 3) [(0, .none), (0, .fail), (0, .none)]).procs = [{ pc := .raised (.build .gen) }] := by
   decide
